@@ -15,7 +15,8 @@ EXPLANATION = (
     "equisatisfiable model-by-model: every model of the input extends to the definition variables and "
     "every model of the clauses restricts to a model of the input (R1).  The Ackermannizer is interpreted "
     "on skeletons with nested, repeated and Boolean-valued applications: no application survives, and "
-    "the result is equisatisfiable with the input under every 1-bit function table (R3d).  Exhaustive "
+    "the result is equisatisfiable with the input under every 1-bit function table, also when the same "
+    "Ackermannizer instance served another formula with the same applications before (R3d).  Exhaustive "
     "dispatch of both CNF converters, quantifiers rejected explicitly (R0).")
 NOT_DECIDED = ["model extension / restriction for arbitrary formulas beyond the per-connective argument of R1"]
 
